@@ -411,5 +411,44 @@ PROPS["C15"] = {
     "timeout": {"quick": 1800, "thorough": 7200},
 }
 
+PROPS["C12"] = {
+    "package": "c12", "exe": "m_c12",
+    "rule": "for each top-level role type (root, timestamp, snapshot, targets incl. delegations with both kinds of path "
+            "set) a validly signed document written as a plain JSON tree by 'another implementation' (canonicalised and "
+            "signed without tough's schema types): plain, and with unknown members (nested objects, arrays, null, non-ASCII "
+            "strings) injected at every object level incl. inside keys and keyval (key ids recomputed); variants with the "
+            "expiry respelled (+00:00, .000Z); then EVERY single-point mutation of the signed portion at every path: "
+            "scalar changes (number +1 / 0 / float, boolean flip, string append / first character changed / upper-cased / "
+            "null), member insertion, a second `_type`, the other kind of path set first / last, member deletion, member "
+            "duplication (same value, changed value first, changed value last), array element insertion / deletion / swap / "
+            "duplication, `_type` set to every other role; every document presented as every other role (timestamp and "
+            "snapshot share a key, targets lists it too); all members of all objects shuffled, whitespace, every string as "
+            "\\uXXXX escapes; extra signature entries (stranger's valid signature, unknown key id, unknown members in the "
+            "wrapper and in signature entries). Quick: every scalar mutant and a third of the structural ones (~900 cases); "
+            "thorough: all (~2400). The document reaches tough as text with member order and duplicates as written.",
+    "explanation": "Theorems (Tough/Props/C12.lean): tough keeps a clean value exactly as it is (norm_clean, by mutual "
+                   "induction over values, lists, maps and struct members for every type of the schema table); hence a "
+                   "conforming document with unknown members at any level that has a catch-all is verified against "
+                   "exactly the canonical form its author signed (conforming_document_message_partial); what signatures "
+                   "are checked against starts with the tag of the role the document is read AS, and the four tags differ "
+                   "(reser_tag, reser_roles_differ, tags_differ). Correspondence: parse / verify outcome and the bytes "
+                   "tough checks signatures against (`canonical_form`) equal the model's `message`, for every mutant. "
+                   "Property on the implementation: an accepted mutant has a parsed struct EQUAL (derived PartialEq) to "
+                   "that of the unmutated document; formatting variants are accepted; a document presented as another "
+                   "role is refused; conforming documents are accepted.",
+    "level_text": "Kernel-checked schema normalisation theorems (conformance, role tags); differential run over every "
+                  "single-point mutation of real signed documents, comparing the exact bytes signatures are checked against.",
+    "level_note": "PARTIAL: (1) 'a change that alters a used value makes the document unacceptable' needs, besides the "
+                  "model, that two different normalised values have different canonical bytes (injectivity of the OLPC "
+                  "canonical form) and that signatures are unforgeable; injectivity is not yet proved in Lean — on the "
+                  "implementation the statement is checked mutant by mutant with struct equality; (2) the conformance "
+                  "theorem excludes unknown members inside `delegations` and `delegations.roles[]` (known findings, with "
+                  "a Lean witness); (3) chrono's RFC 3339 re-spelling and key identifiers are oracles of the model "
+                  "(`tnorm`, `keyOk`), supplied per case by the harness from chrono and `Key::key_id`.",
+    "trusted": ["modelled, not verified: serde / serde_json parsing of text into values, chrono DateTime round trip, signature primitives",
+                "the schema table (Tough/Model/Schema.lean) is a hand transcription of tough/src/schema/mod.rs, checked only by correspondence"],
+    "assumptions": ["signatures are unforgeable", "strings of the generated documents are NFC (no NFC table is passed)"],
+}
+
 _PENDING = "check under construction in this session (DESIGN.md §10 order of work); not claimed until it runs"
 NOT_APPLICABLE = {f"C{i:02d}": _PENDING for i in range(1, 21)}
